@@ -48,7 +48,7 @@ def gen_skeleton(rng, idx):
         return {"id": idx, "prog": prog.to_json(), "alphabet": alphabet, "m": m}
     # every third mtl program ends with an INACTIVE task (exactly-zero gradient w.r.t. the features): the last
     # sweep -- the only one that frees the trunk -- then carries an all-zero cotangent
-    prog, feats, losses, tasks, shared = ajlib.gen_mtl(rng, nested=False, zero_last=(idx % 3 == 2))
+    prog, feats, losses, tasks, shared = ajlib.gen_mtl(rng, nested=False, zero_last=(("all" if idx % 6 == 5 else True) if idx % 3 == 2 else False))
     # every feature must be used by some loss: an unused feature is still differentiated (and freed)
     # by mtl_backward while no torch.autograd call on the losses ever reaches it, so the
     # torch-only twin is not a reference for such programs
